@@ -105,6 +105,8 @@ type storeFS struct {
 	failAt  int64 // -1 never
 	log     []string
 	mu      sync.Mutex
+	// removeHook, when set, runs before every Remove reaches the store (full store only)
+	removeHook func(name string)
 }
 
 func (s *storeFS) tick(what string) error {
@@ -179,7 +181,12 @@ func (s *storeFS) Mkdir(name string, perm hackpadfs.FileMode) error {
 	}
 	return s.fs.Mkdir(name, perm)
 }
-func (s storeFull) Remove(name string) error                { return s.fs.Remove(name) }
+func (s storeFull) Remove(name string) error {
+	if s.removeHook != nil {
+		s.removeHook(name)
+	}
+	return s.fs.Remove(name)
+}
 func (s storeFull) Stat(name string) (gofs.FileInfo, error) { return s.fs.Stat(name) }
 func (s storeFull) MkdirAll(name string, perm hackpadfs.FileMode) error {
 	if err := s.tick("mkdirall " + name); err != nil {
@@ -805,6 +812,89 @@ func runC11(r *Rng, n int, replay string) {
 				c.fail(fmt.Sprintf("%s: %d copies of the file were in progress at the same time", hdr, maxCopies), "concurrent:copies")
 			}
 			c.Text = append(c.Text, fmt.Sprintf("results %v, max simultaneous copies %d", results, maxCopies))
+			emit(c)
+		}
+		// a failing fill while a second opener is already waiting for the same name: the clean-up of the partial copy
+		// (held up inside the store's Remove until the second opener is done, or 60 ms) must finish before the second
+		// opener is let in
+		if !minimal && size > 0 && id < n {
+			src := mkSrc()
+			st, store := newStore(false)
+			failIdx := int64(0)
+			if size > 512 {
+				failIdx = 1
+			}
+			src.failName, src.failRead = name, failIdx
+			aInCopy, bWaiting, bDone := make(chan struct{}), make(chan struct{}), make(chan struct{})
+			var once sync.Once
+			src.pause = func(nm string, idx int64) {
+				if nm == name && idx == failIdx {
+					once.Do(func() {
+						close(aInCopy)
+						select {
+						case <-bWaiting:
+						case <-time.After(2 * time.Second):
+						}
+					})
+				}
+			}
+			st.removeHook = func(string) {
+				select {
+				case <-bDone:
+				case <-time.After(60 * time.Millisecond):
+				}
+			}
+			cfs, _ := cache.NewReadOnlyFS(src, store, cache.ReadOnlyOptions{})
+			c := &Case{ID: id, Kind: "concurrent-fault"}
+			id++
+			hdr := fmt.Sprintf("first open of %q (%d bytes) fails at source read %d while a second open of it waits; the store's Remove is slow", name, size, failIdx)
+			c.Text = []string{hdr}
+			c.Cells = []string{fmt.Sprintf("concurrent-fault/size%d", size)}
+			open1 := func() string {
+				defer func() { _ = recover() }()
+				f, err := cfs.Open(name)
+				if err != nil {
+					return "err"
+				}
+				got, rerr := readAllOf(f)
+				_ = f.Close()
+				if rerr != nil || !bytes.Equal(got, data) {
+					return fmt.Sprintf("partial: %d of %d bytes (err %v)", len(got), len(data), rerr)
+				}
+				return "complete"
+			}
+			var resA, resB string
+			aDone := make(chan struct{})
+			go func() { resA = open1(); close(aDone) }()
+			select {
+			case <-aInCopy:
+			case <-time.After(2 * time.Second):
+			}
+			go func() { resB = open1(); close(bDone) }()
+			time.Sleep(5 * time.Millisecond)
+			close(bWaiting)
+			hung := false
+			for _, ch := range []chan struct{}{aDone, bDone} {
+				select {
+				case <-ch:
+				case <-time.After(10 * time.Second):
+					hung = true
+				}
+			}
+			if hung {
+				c.fail(hdr+": the opens did not both return", "concurrent-fault:hang")
+			} else {
+				c.Text = append(c.Text, fmt.Sprintf("first opener: %s, second opener: %s", resA, resB))
+				for g, res := range []string{resA, resB} {
+					if res != "complete" && res != "err" {
+						c.fail(fmt.Sprintf("%s: opener %d got %s", hdr, g, res), "concurrent-fault:partial")
+					}
+				}
+				// and afterwards, with nothing failing: the complete bytes or an error
+				if res := open1(); res != "complete" && res != "err" {
+					c.fail(fmt.Sprintf("%s: a later open got %s", hdr, res), "concurrent-fault:partial-later")
+				}
+			}
 			emit(c)
 		}
 	}
